@@ -304,6 +304,18 @@ def gen(ctx):
     return out
 
 
+# what the property text says where the Lean Spec mirrors the code (so Spec-vs-implementation cannot see it)
+DIRECT = [
+    {"key": "registered:already-held-registration-id:future-never-completed",
+     "what": "REGISTERED bears the id of a pending register() and the matching type, but a registration id the session "
+             "already holds: the request is popped, ProtocolError is raised, and the future register() returned is never "
+             "completed - not by the reply, not when the session / the transport ends",
+     "script": ["open", "pump", "m.welcome,7", "reg,1,4,n,ok", "m.registered,1,70", "reg,2,5,n,ok", "m.registered,2,70", "pump",
+                "closed", "pump"],
+     "event": None, "all_done": True},
+]
+
+
 def run(ctx):
     res = core.Result()
     res.rule = ("script = event tokens for one session object: open, WELCOME, established subscriptions/registrations, "
@@ -317,6 +329,10 @@ def run(ctx):
                 "non-trivial = distinct script with at least one reply event")
     if ctx.replay_path:
         scripts, fws = sc.replay_scripts(ctx)
+        d = sc.replay_direct(ctx)
+        if d:
+            sc.check_direct(ctx, res, d, frameworks=fws)
+            return res
         sc.check_scripts(ctx, res, scripts, owns, frameworks=fws, shrink=False)
         return res
     items = [("corpus", s) for s in CORPUS] + [("corpus:" + n, s) for n, s in sc.corpus_scripts(PROP)] + gen(ctx)
@@ -338,6 +354,8 @@ def run(ctx):
     ctx.log(f"{len(scripts)} scripts, {sum(map(len, scripts))} events")
     st = sc.check_scripts(ctx, res, scripts, owns, prefix=0)
     res.notes.append("spec divergences by key: " + ", ".join(st["keys"]) if st["keys"] else "no spec divergence")
+    hit = sc.check_direct(ctx, res, DIRECT)
+    res.notes.append("direct expectations violated: " + (", ".join(hit) or "none"))
     res.notes.append("send failure: call/publish drop their record; subscribe/register/unsubscribe/unregister keep an "
                      "orphan record whose future was never returned (failed at session end) — modelled and compared")
     return res
